@@ -7,6 +7,14 @@ HERE = os.path.dirname(os.path.dirname(os.path.abspath(__file__)))
 
 # property id -> (level category, technique, level text, level note, design section)
 CHECKS = {
+    'C01': ('exploration',
+            'differential runtime monitor: reference XDM model + libxml2 + cross-version + public-API projection on generated documents/paths',
+            'Every generated (document, path expression, context item, tree library, root kind) is evaluated by the four parser '
+            'versions through the token API (node identity kept) and compared with a reference XDM axis/predicate model, with '
+            'libxml2 where it applies (arbitration: a model mismatch only counts when libxml2 agrees with the model), and the public '
+            'select/iter_select/Selector forms are compared with the documented projection. Held on the cases executed.',
+            'Trusted: rv/models/xdm.py, libxml2 via lxml 6.1.3; absolute paths only on trees with a document node; namespace-node order unconstrained.',
+            'DESIGN.md section 4 (C01)'),
     'C13': ('exploration',
             'runtime shadow-model monitor over operation histories + exhaustive table comparison with unicodedata',
             'Every UnicodeSubset/CharacterClass state reached by random operation histories is compared, after every '
